@@ -127,8 +127,12 @@ def run_case(desc):
                                                             if hasattr(clf, "estimator") else ""),
                          "kind": kind, "detail": detail, "trigger": "any"})
 
-    clf = factory(classes, ml, cm, int(desc["seed"] % 1000))
-    ctx = "clf=%s classes=%r regime=%s n=%d labelled=%d weights=%s cost=%s" % (name, classes, regime, n, int(lab.sum()), desc["weights"], desc["cost"])
+    # the class list is DECLARED in an arbitrary order; cost_matrix[i, j] refers to that declared order
+    declared = [classes[i] for i in rng.permutation(K)] if (desc["seed"] >> 10) % 3 else list(classes)
+    pos = [classes.index(c) for c in declared]                      # declared position -> sorted class index
+    cm_declared = None if cm is None else cm[np.ix_(pos, pos)]      # the same costs, written down in declared order
+    clf = factory(declared, ml, cm_declared, int(desc["seed"] % 1000))
+    ctx = "clf=%s declared classes=%r regime=%s n=%d labelled=%d weights=%s cost=%s" % (name, declared, regime, n, int(lab.sum()), desc["weights"], desc["cost"])
     import inspect
 
     def _fit(method, Xa, ya, wa):
@@ -216,7 +220,9 @@ def run_case(desc):
                     add("predict-not-a-class", "%s: predictions %r, classes_ %r" % (what, pred.tolist()[:8], cl))
                 elif rec and rec[-1][0] == len(Q) and rec[-1][1].shape == (len(Q), K):
                     Pin = rec[-1][1]
-                    C = np.asarray(clf.cost_matrix_, dtype=float)
+                    # own reconstruction of the costs in classes_ (sorted) order from what the user declared - the
+                    # library's cost_matrix_ is deliberately not trusted
+                    C = (1.0 - np.eye(K)) if cm is None else np.asarray(cm, dtype=float)
                     costs = Pin @ C
                     chosen = costs[np.arange(len(Q)), [cl.index(p) for p in pred.tolist()]]
                     best = costs.min(axis=1)
